@@ -17,7 +17,7 @@ pub const NAU: usize = NA as usize;
 
 pub type Set = Orswot<u8, u8>;
 
-#[derive(Clone)]
+#[derive(Clone, Debug)]
 pub struct Uni {
     pub issued: [u64; NAU],
     pub mem: [[u8; NCU]; NAU], // member bit mask of add (a, c+1)
@@ -25,7 +25,7 @@ pub struct Uni {
     pub rm_ctx: [[u64; NAU]; NR],
 }
 
-#[derive(Clone)]
+#[derive(Clone, Debug)]
 pub struct Know {
     pub seen: [u64; NAU],
     pub rms: [bool; NR],
@@ -55,6 +55,7 @@ pub fn any_uni(i: &mut In) -> Uni {
         }
         r += 1;
     }
+    vtrace!("universe {:?}", u);
     u
 }
 
@@ -72,6 +73,7 @@ pub fn any_know(i: &mut In, u: &Uni) -> Know {
         k.rms[r] = i.bool();
         r += 1;
     }
+    vtrace!("knowledge {:?}", k);
     k
 }
 
